@@ -295,3 +295,116 @@ Definition ends_nondigit (u : str) : Prop := exists p c, u = p ++ [c] /\ is_digi
 Definition signed_fresh (now_ns : Z) (issued : list (str * Z)) (uri ts : str) : Prop :=
   exists u0 t0 t, In (u0, t0) issued /\ parse_int ts = Some t /\
                   u0 ++ dec t0 = uri ++ dec t /\ (now_ns - t * ns <= ttl_ns)%Z.
+
+(* ================= the request on the wire: Request.ParseForm precedence =================
+   The record [request] above is the request AS READ by gates and handlers. What the client
+   sends is a query string and (possibly) a body; which value a Form.Get returns is decided by
+   net/http's Request.ParseForm (request.go: parsePostForm, ParseForm):
+     - the body is read only for POST/PUT/PATCH with Content-Type application/x-www-form-urlencoded
+       (multipart bodies are read by ParseMultipartForm only, which nothing here calls once
+       ParseForm has run; a missing Content-Type counts as application/octet-stream);
+     - r.Form = body pairs, then the URL query pairs appended per key, so Form.Get(k) is the first
+       body value of k if there is one, else the first query value;
+     - req.URL.Query().Get(k) is the first query value.
+   Every gate and every handler of the four routes reads through req.Form.Get (middleware.go:113,
+   147-149; authenticator.go:305,313,369,426,434-435,538,545,556); validateClientID uses
+   req.FormValue after ParseForm (= Form.Get) and falls back to the query when that is empty
+   (middleware.go:64-68); OAuthStart reads req.URL.Query() (authenticator.go:464).
+   Decoding that is not C07's (base64 of sig, base64+SplitN of state, url.Parse(..).String() and
+   URL.Query() of the /start values, url.ParseQuery of the redirect's query) enters as tables keyed
+   by the raw parameter value. *)
+Inductive ctype := CtUrlencoded | CtMultipart | CtNone | CtOther.
+
+Record start_info := {
+  si_outer : option str;        (* url.Parse(x).String(), None = Parse error *)
+  si_raw_nested : str;          (* authRedirectURL.Query().Get("redirect_uri") *)
+  si_nested : option str;       (* url.Parse(nested).String() *)
+  si_sig : sigval;              (* authRedirectURL.Query().Get("sig"), decoded *)
+  si_ts : str
+}.
+Definition no_start : start_info :=
+  {| si_outer := None; si_raw_nested := []; si_nested := None; si_sig := SigAbsent; si_ts := [] |}.
+
+Record wire := {
+  w_meth : meth;
+  w_form_ok : bool;                        (* req.ParseForm() succeeded *)
+  w_ctype : ctype;
+  w_query : list (str * str);              (* URL query pairs, in order *)
+  w_body : list (str * str);               (* urlencoded body pairs, in order *)
+  w_sigtab : list (str * sigval);          (* raw sig value -> base64-decoded, symbolic *)
+  w_statetab : list (str * cb_state);      (* raw state value -> decoded and split *)
+  w_starttab : list (str * start_info);    (* raw /start redirect_uri value -> what OAuthStart derives *)
+  w_qoktab : list (str * bool);            (* raw redirect_uri value -> its query passes url.ParseQuery *)
+  w_session : session;
+  w_provider_valid : bool;
+  w_revoke_ok : bool;
+  w_cb_redeem_ok : bool;
+  w_cb_csrf : option str;
+  w_cb_user_ok : bool
+}.
+
+Definition k_redirect_uri : str := [114;101;100;105;114;101;99;116;95;117;114;105].
+Definition k_sig : str := [115;105;103].
+Definition k_ts : str := [116;115].
+Definition k_state : str := [115;116;97;116;101].
+Definition k_client_id : str := [99;108;105;101;110;116;95;105;100].
+Definition k_error : str := [101;114;114;111;114].
+Definition k_code : str := [99;111;100;101].
+
+(* url.Values.Get on an ordered pair list: first value of the key, "" when absent *)
+Fixpoint get_first (k : str) (pairs : list (str * str)) : str :=
+  match pairs with
+  | [] => []
+  | (a, b) :: r => if str_eqb a k then b else get_first k r
+  end.
+Fixpoint assoc_tab {A} (k : str) (t : list (str * A)) : option A :=
+  match t with [] => None | (a, b) :: t' => if str_eqb a k then Some b else assoc_tab k t' end.
+
+Definition body_read (w : wire) : bool :=
+  match w_meth w, w_ctype w with POST, CtUrlencoded => true | _, _ => false end.
+Definition form_pairs (w : wire) : list (str * str) :=
+  (if body_read w then w_body w else []) ++ w_query w.
+Definition form_get (w : wire) (k : str) : str := get_first k (form_pairs w).      (* req.Form.Get *)
+Definition query_get (w : wire) (k : str) : str := get_first k (w_query w).        (* req.URL.Query().Get *)
+
+Definition sig_lookup (t : list (str * sigval)) (raw : str) : sigval :=
+  if is_nil raw then SigAbsent else match assoc_tab raw t with Some v => v | None => SigBad end.
+Definition state_lookup (t : list (str * cb_state)) (raw : str) : cb_state :=
+  match assoc_tab raw t with Some v => v | None => if is_nil raw then StNoColon else StBad end.
+Definition start_lookup (t : list (str * start_info)) (raw : str) : start_info :=
+  match assoc_tab raw t with Some i => i | None => no_start end.
+Definition qok_lookup (t : list (str * bool)) (raw : str) : bool :=
+  match assoc_tab raw t with Some b => b | None => true end.
+
+(* what the gates and handlers of route [ep] read from the wire request *)
+Definition request_of_wire (ep : endpoint) (w : wire) : request :=
+  let start := start_lookup (w_starttab w) (query_get w k_redirect_uri) in
+  let is_start := match ep with EpStart => true | _ => false end in
+  let uri := form_get w k_redirect_uri in
+  {| q_meth := w_meth w;
+     q_form_ok := w_form_ok w;
+     q_client_id := (let v := form_get w k_client_id in if is_nil v then query_get w k_client_id else v);
+     q_uri := uri;
+     q_sig := if is_start then si_sig start else sig_lookup (w_sigtab w) (form_get w k_sig);
+     q_ts := if is_start then si_ts start else form_get w k_ts;
+     q_state := form_get w k_state;
+     q_session := w_session w;
+     q_provider_valid := w_provider_valid w;
+     q_revoke_ok := w_revoke_ok w;
+     q_query_ok := qok_lookup (w_qoktab w) uri;
+     q_outer := if is_start then si_outer start else None;
+     q_nested := if is_start then si_nested start else None;
+     q_cb_error := negb (is_nil (form_get w k_error));
+     q_cb_code_empty := is_nil (form_get w k_code);
+     q_cb_redeem_ok := w_cb_redeem_ok w;
+     q_cb_state := state_lookup (w_statetab w) (form_get w k_state);
+     q_cb_csrf := w_cb_csrf w;
+     q_cb_user_ok := w_cb_user_ok w |}.
+
+Definition serve_wire (c : config) (now_ns : Z) (ep : endpoint) (w : wire) : outcome :=
+  serve c now_ns ep (request_of_wire ep w).
+
+(* every value of key [k] the client put anywhere in the request (query or body, read or not) *)
+Definition values_of (k : str) (pairs : list (str * str)) : list str :=
+  map snd (filter (fun p => str_eqb (fst p) k) pairs).
+Definition presented (w : wire) (k : str) : list str := values_of k (w_body w ++ w_query w).
